@@ -96,6 +96,10 @@ def csv_cases(tier, seed=0):
             else:
                 cols.append({"name": nme, "dtype": "int", "data": [rnd.choice(INTS[:7]) for _ in range(nrows)], "mask": [False] * nrows})
         out.append({"kind": "csv_roundtrip", "columns": cols, "read": {}, "typed_read": True})
+    # a table without rows: just the header line is written, and reading it back gives empty columns
+    out.append({"kind": "csv_roundtrip", "columns": [{"name": "A", "dtype": "float", "data": [], "mask": []}, {"name": "B", "dtype": "float", "data": [], "mask": []}],
+                "read": {}, "typed_read": True})
+    out.append({"kind": "csv_roundtrip", "columns": [{"name": "Only", "dtype": "int", "data": [], "mask": []}], "read": {}, "typed_read": True})
     # every ordering of element types, with values that do not survive a cast to the other type
     fcol = lambda n: {"name": n, "dtype": "float", "data": [hx(x) for x in (0.1, 1.7976931348623157e+308, -2.5, 5e-324)], "mask": [False] * 4}
     icol = lambda n: {"name": n, "dtype": "int", "data": [3, -9999, 0, 123456], "mask": [False] * 4}
@@ -236,7 +240,10 @@ def nc_cases(tier, seed=0):
             rp["DataType"] = rnd.choice(["Float", "Integer", "Positive Float", "Positive Integer", "Fuzzy"])
         if rnd.random() < 0.3:
             rp["MissingValue"] = rnd.choice([0, 1, 7, 0.25, -1.5])
-        out.append({"kind": "nc_roundtrip", "shape": shape, "columns": cols, "read_params": rp})
+        case = {"kind": "nc_roundtrip", "shape": shape, "columns": cols, "read_params": rp}
+        if len(out) % 3 == 1:
+            case["packed_dims"] = True  # template coordinates stored as scaled 16-bit integers
+        out.append(case)
     # reader parameter combinations on a fixed file
     base = {"kind": "nc_read", "shape": [4], "dtype": "float"}
     for data in ([0.5, -0.25, 1.0, 0.0], [0.5, 2.0, 1.0, 0.0], [3.0, 7.0, 1.0, 0.0], [-3.0, 7.0, 1.0, 0.0], [1.01, -1.015, 0.3, 0.0], [2.6, 3.4, -0.5, 0.0]):
@@ -250,6 +257,10 @@ def nc_cases(tier, seed=0):
                         params["MissingValue"] = mv
                     out.append(dict(base, data=[hx(x) for x in data], mask=mask, params=params))
     out.append(dict(base, data=[hx(1.0)] * 4, mask=[False] * 4, params={}, field="Nope"))
+    # other spellings of the type names: either rejected as not a data type, or accepted with exactly the checks of the canonical name
+    for spelled, canon in (("positive float", "Positive Float"), ("POSITIVE INTEGER", "Positive Integer"), ("fuzzy", "Fuzzy"), (" Fuzzy", "Fuzzy"), ("float", "Float")):
+        for data in ([-3.0, 7.25, 1.0, 0.0], [1.5, -1.2, 0.3, 0.0]):
+            out.append(dict(base, data=[hx(x) for x in data], mask=[False] * 4, params={"DataType": canon}, spelled=spelled, via_program=True))
     # valid values next to the missing-value sentinel stay valid (exact comparison)
     near = []
     for mv, data in ((100000, [100000.5, 99999.75, 100000.0, 1e-09]), (0, [1e-09, -2.5e-310, 0.0, 5e-324]), (1.0, [1.000001, 0.9999999, 1.0, 2.0]),
@@ -261,7 +272,8 @@ def nc_cases(tier, seed=0):
             near.append(dict(base, data=[hx(x) for x in data], mask=[False] * 4, params=params))
     out = near + out
     if tier == "quick":
-        keep = out[: n + len(near)] + rnd.sample(out[n + len(near):], 60)
+        rest = out[n + len(near):]
+        keep = out[: n + len(near)] + [c for c in rest if c.get("spelled")] + rnd.sample([c for c in rest if not c.get("spelled")], 60)
         return keep
     return out
 
@@ -307,7 +319,9 @@ def judge_nc(case, o):
             return bad
         vals = [_num(x) for x in case["data"]]
         exp = _nc_expected_read(vals, case["mask"], case["params"], case["dtype"])
-        return bad + _cmp_read(exp, o, "read %s" % json.dumps(case["params"]))
+        if case.get("spelled") and o.get("outcome") == "raise" and o.get("exc_class") == "ParameterNotValid":
+            return bad  # the spelling is not accepted as a data type: fine
+        return bad + _cmp_read(exp, o, "read %s%s" % (json.dumps(case["params"]), " spelled %r" % case["spelled"] if case.get("spelled") else ""))
     if o["write"]["outcome"] != "return":
         return [("netcdf", "writing failed: %s %s" % (o["write"].get("exc_class"), o["write"].get("msg", "")[:120]))]
     if o["inputs_after"] != o["inputs_before"]:
@@ -315,7 +329,8 @@ def judge_nc(case, o):
     shape = case["shape"]
     for i, n in enumerate(shape):
         d = o.get("dims", {}).get("d%d" % i)
-        if not d or d["size"] != n or [float.fromhex(x) for x in d["values"]] != [k * 1.5 + 0.25 for k in range(n)] or d.get("units") != "m_d%d" % i:
+        want = [float.fromhex(x) for x in o.get("template_dims", {}).get("d%d" % i, [])] or [k * 1.5 + 0.25 for k in range(n)]
+        if not d or d["size"] != n or [float.fromhex(x) for x in d["values"]] != want or d.get("units") != "m_d%d" % i:
             bad.append(("netcdf", "dimension variable d%d was not copied unchanged: %s" % (i, d)))
     if o.get("variables") != [c["name"] for c in case["columns"]]:
         bad.append(("netcdf", "variables written %r, results in order %r" % (o.get("variables"), [c["name"] for c in case["columns"]])))
